@@ -22,6 +22,22 @@
 #include "oomd/util/PluginArgParser.h"
 #include "oomd/util/Util.h"
 
+namespace {
+
+// Numeric conversions of argument text have to consume the whole text:
+// "12abc" or "7.9" for an integer are configuration errors, not 12 and 7.
+template <typename T, typename F>
+T parseWholeNumber(const std::string& str, F&& conv) {
+  size_t end_pos = 0;
+  T res = conv(str, &end_pos);
+  if (end_pos != str.length()) {
+    throw std::invalid_argument("trailing characters after number");
+  }
+  return res;
+}
+
+} // namespace
+
 namespace Oomd {
 
 std::unordered_set<CgroupPath> PluginArgParser::parseCgroup(
@@ -38,7 +54,8 @@ std::unordered_set<CgroupPath> PluginArgParser::parseCgroup(
 }
 
 int PluginArgParser::parseUnsignedInt(const std::string& intStr) {
-  int res = std::stoi(intStr);
+  int res = parseWholeNumber<int>(
+      intStr, [](const std::string& s, size_t* pos) { return std::stoi(s, pos); });
   if (res < 0) {
     throw std::invalid_argument("must be non-negative");
   }
@@ -105,22 +122,30 @@ std::unordered_set<std::string> PluginArgParser::validArgNames() {
 
 template <>
 int64_t PluginArgParser::parseValue(const std::string& valueString) {
-  return std::stoull(valueString);
+  return parseWholeNumber<int64_t>(
+      valueString,
+      [](const std::string& s, size_t* pos) { return std::stoll(s, pos); });
 }
 
 template <>
 int PluginArgParser::parseValue(const std::string& valueString) {
-  return std::stoi(valueString);
+  return parseWholeNumber<int>(
+      valueString,
+      [](const std::string& s, size_t* pos) { return std::stoi(s, pos); });
 }
 
 template <>
 double PluginArgParser::parseValue(const std::string& valueString) {
-  return std::stod(valueString);
+  return parseWholeNumber<double>(
+      valueString,
+      [](const std::string& s, size_t* pos) { return std::stod(s, pos); });
 }
 
 template <>
 float PluginArgParser::parseValue(const std::string& valueString) {
-  return std::stof(valueString);
+  return parseWholeNumber<float>(
+      valueString,
+      [](const std::string& s, size_t* pos) { return std::stof(s, pos); });
 }
 
 template <>
@@ -145,7 +170,9 @@ std::string PluginArgParser::parseValue(const std::string& valueString) {
 template <>
 std::chrono::milliseconds PluginArgParser::parseValue(
     const std::string& valueString) {
-  return std::chrono::milliseconds(std::stoll(valueString));
+  return std::chrono::milliseconds(parseWholeNumber<long long>(
+      valueString,
+      [](const std::string& s, size_t* pos) { return std::stoll(s, pos); }));
 }
 
 template <>
